@@ -2,7 +2,8 @@
 //!
 //! Grid (quick = thorough = the whole grid; thorough adds more PRNG cases): for each of the 40
 //! account types (13 discriminant widths 0,1,2,3,4,5,6,7,8,12,16,24,32 × zero-copy/fixed-borsh/variable-borsh + the closed-marker
-//! type): owner ∈ {program id, each of its 256 single-bit flips, System}; data length 0..W+3 (and
+//! type; plus 12 types declared through every other declaration form, see progs.rs): owner ∈ {the program NAMED
+//! in the declaration, each of its 256 single-bit flips, System, every other harness program}; data length 0..W+3 (and
 //! W+8); discriminant prefix ∈ {exact, every single-byte deviation, all-0xFF, all-zero}; writable
 //! t/f; data borrowed (exclusively / 7 shared / 1 shared) or not; then `close_account` and
 //! re-validation. Observed: class of decode, `validate_accounts`, `data()`, `data_mut()`.
@@ -240,6 +241,12 @@ pub fn run(args: &Args) {
         let exact: Vec<u8> = patterns(kind, &disc, w + body_ok, false)[0].1.clone();
         let mut owners: Vec<(String, [u8; 32])> = vec![("id".into(), pid), ("system".into(), sys)];
         owners.extend((0..256).map(|b| (format!("flip{b}"), flip(&pid, b))));
+        // every OTHER harness program (incl. the crate's declared program): an account owned by one of them must
+        // not be admitted as a type declared for `pid`, whatever the declaration form
+        let mut others: Vec<[u8; 32]> = d.it.table.iter().map(|e| e.prog_id).filter(|p| *p != pid).collect();
+        others.sort();
+        others.dedup();
+        owners.extend(others.into_iter().map(|p| (format!("prog{:02x}", p[1]), p)));
         let mut wrong = exact.clone();
         if w > 0 {
             wrong[w - 1] ^= 0x80;
